@@ -108,6 +108,7 @@ func runC07(c *Ctx) {
 	r.Rule("delegate-reach", "every exported parse/validate entry point of pkg/gosqlx and pkg/sql/parser reaches a tokenizer loop and a parser statement loop in the call graph")
 	r.Rule("delegate-errors", "in every delegating entry point each error returned by a tokenizer/parser/gosqlx callee is tested; its non-nil branch reaches only returns with a non-nil error and cannot reach the call again (first failure ends a batch)")
 	r.Rule("delegate-tokens", "the token slice given to the parser is the value the tokenizer (or the token conversion) returned")
+	r.Rule("delegate-input", "the text an entry point hands to the tokenizer (or to another entry point) is its own input parameter, unchanged up to string/[]byte conversion: an entry point that trims, slices or rewrites the text first accepts inputs the others reject and reports positions relative to a different text")
 	checkClones(c, "clone-parse", "pkg/sql/parser", "Parser", "Parse", parseLoopDeltas)
 	checkClones(c, "clone-tokenize", "pkg/sql/tokenizer", "Tokenizer", "Tokenize", tokenizeDeltas)
 	// delegation
@@ -160,6 +161,115 @@ func runC07(c *Ctx) {
 	for _, fn := range entries {
 		c07Delegation(c, p, ep, fn, inScope)
 	}
+	// delegate-input
+	textSink := map[*ssa.Function]bool{}
+	for f := range tokLoops {
+		textSink[f] = true
+	}
+	for _, f := range entries {
+		textSink[f] = true
+	}
+	ni := 0
+	for _, fn := range entries {
+		seq := map[string]int{}
+		for _, b := range fn.Blocks {
+			for _, in := range b.Instrs {
+				call, ok := in.(*ssa.Call)
+				if !ok {
+					continue
+				}
+				callee := call.Call.StaticCallee()
+				if callee == nil || !textSink[callee] {
+					continue
+				}
+				for _, a := range call.Call.Args {
+					if !isStringOrBytes(a.Type()) {
+						continue
+					}
+					ni++
+					seq[callee.Name()]++
+					key := core.FnName(fn) + "|" + callee.Name() + sprintf("#%d", seq[callee.Name()])
+					if ok, why := inputIdentity(a, 0, map[ssa.Value]bool{}); ok {
+						r.OK("delegate-input", key, p.Pos(call.Pos()), "the entry point's own input")
+					} else {
+						r.Violate("delegate-input", key, p.Pos(call.Pos()), "the text passed to "+callee.Name()+" is not the entry point's input as given ("+why+"): this entry point tokenizes a different text than its siblings")
+					}
+				}
+			}
+		}
+	}
+	r.Floor("delegate-input", ni, 10, "text arguments handed to the tokenizer or to another entry point")
+}
+
+// inputIdentity: v is a parameter (or an element of a parameter slice in a batch loop), up to string/[]byte conversion.
+func inputIdentity(v ssa.Value, depth int, seen map[ssa.Value]bool) (bool, string) {
+	if depth > 8 {
+		return false, "too deep"
+	}
+	if seen[v] {
+		return true, ""
+	}
+	seen[v] = true
+	switch x := v.(type) {
+	case *ssa.Parameter:
+		return true, ""
+	case *ssa.Convert:
+		if isStringOrBytes(x.X.Type()) {
+			return inputIdentity(x.X, depth+1, seen)
+		}
+	case *ssa.ChangeType:
+		return inputIdentity(x.X, depth+1, seen)
+	case *ssa.Phi:
+		for _, e := range x.Edges {
+			if ok, why := inputIdentity(e, depth+1, seen); !ok {
+				return false, why
+			}
+		}
+		return true, ""
+	case *ssa.UnOp:
+		switch a := x.X.(type) {
+		case *ssa.IndexAddr:
+			return inputIdentity(a.X, depth+1, seen) // element of a batch parameter
+		case *ssa.Alloc:
+			for _, ref := range core.Referrers(a) {
+				if st, ok := ref.(*ssa.Store); ok && st.Addr == ssa.Value(a) {
+					if ok, why := inputIdentity(st.Val, depth+1, seen); !ok {
+						return false, why
+					}
+				}
+			}
+			return true, ""
+		case *ssa.FreeVar:
+			return true, "" // captured variable of the enclosing entry point (checked there)
+		}
+	case *ssa.Extract:
+		// range over a parameter slice: (ok, key, value) tuple of Next
+		if nx, ok := x.Tuple.(*ssa.Next); ok {
+			if rg, ok := nx.Iter.(*ssa.Range); ok {
+				return inputIdentity(rg.X, depth+1, seen)
+			}
+		}
+	case *ssa.Index:
+		return inputIdentity(x.X, depth+1, seen)
+	case *ssa.Call:
+		name := "a function value"
+		if f := x.Call.StaticCallee(); f != nil {
+			name = f.Name()
+			// zero-copy conversions
+			if core.FnPkg(f) != nil && core.FnPkg(f).Path() == "unsafe" {
+				return true, ""
+			}
+		}
+		return false, "result of " + name + "()"
+	case *ssa.Slice:
+		if x.Low == nil && x.High == nil {
+			return inputIdentity(x.X, depth+1, seen)
+		}
+		return false, "a sub-slice of the input"
+	case *ssa.Const:
+		return true, ""
+	}
+	return false, "computed value " + v.String()
 }
 
 func takesTokens(fn *ssa.Function) bool {
